@@ -338,7 +338,7 @@ def _coq(policy, acts, o):
 
 def correspond(ctx, corr, model_ok):
     from harness import battery
-    battery.run(corr, ['reconnect-setup', 'late-requests', 'lease-queue-across-reconnect'])
+    battery.run(corr, ['reconnect-setup', 'late-requests', 'lease-queue-across-reconnect', 'second-connection-keepalive'])
     rng = ctx.rng
     items = []
     for i in range(ctx.scale(160, 3000)):
